@@ -150,12 +150,13 @@ FuncStep(name, h, arg) ==
                    [] name = "diff" -> Scan("diff", A(h), arg)
                    [] name = "astype" -> <<"ragged", A(h)[1], A(h)[2]>>          \* astype(own dtype): an equal, independent array
                    [] name \in {"sum", "max", "min", "mean", "argmax", "argmin"} -> Reduce(<<"n", name>>, A(h), -1, 0)    \* an observation
+                   [] name = "unique_obs" -> Scan("unique", A(h), 0)      \* looked at, not kept: its shape depends on the values
                    [] OTHER -> Scan(name, A(h), 0)
       out == F(LAMBDA g : heap[g])
       mout == F(MArr)
       src == IF name = "concat" THEN {h, arg[1]} ELSE {h}
       m == MatAll(bufs, view, IF name = "concat" THEN <<h, arg[1]>> ELSE <<h>>)
-  IN IF Tag(out) = "ragged" THEN NewFresh(<<out[2], out[3]>>, <<mout[2], mout[3]>>, m, src) /\ last' = <<"new", Len(heap) + 1>>
+  IN IF Tag(out) = "ragged" /\ name # "unique_obs" THEN NewFresh(<<out[2], out[3]>>, <<mout[2], mout[3]>>, m, src) /\ last' = <<"new", Len(heap) + 1>>
      ELSE /\ UNCHANGED <<heap, alias, stale, anc, mayst>> /\ bufs' = m[1] /\ view' = m[2] /\ last' = <<"obs", out, mout>>
 
 \* read-only operations.  Printing, iterating, the flat view, reductions, every array function and ufunc executed for its
